@@ -333,6 +333,14 @@ class FnRewriter:
                     seg_start = k + 1
                 k += 1
             self._r4_lets = r4_lets
+        elif self.unit.get('_clock'):
+            # R20 ghost-clock: the extracted fn gets a trailing ghost parameter `Tracked(clk)`
+            self._emit_range(p_open, p_close, out, rw, pathmap, in_body=False)
+            inner = [x for x in toks[p_open + 1:p_close] if x.kind not in ('ws', 'comment')]
+            sep = '' if (not inner or inner[-1].text == ',') else ', '
+            out('%sTracked(clk): Tracked<&mut Clock>)' % sep, p_close)
+            self.log.append({'rule': 'R20', 'fn': self.fnkey, 'line': self.sf.line_of(toks[p_open].start),
+                             'what': 'ghost parameter Tracked(clk): Tracked<&mut Clock> appended to the parameter list'})
         else:
             self._emit_range(p_open, p_close + 1, out, rw, pathmap, in_body=False)
         ret_end = where_kw if where_kw is not None else bo
@@ -749,6 +757,27 @@ class FnRewriter:
                 if t.text == 'await' and 'R6' in rw:
                     # drop preceding '.' already emitted?  handled below via lookahead
                     pass
+                # R20 ghost-clock (opt-in): calls of the functions named in unit.json "clock_calls" get the
+                # ghost argument `Tracked(clk)` appended (erased at run time; it only orders the calls)
+                if in_body and 'R20' in rw and t.text in self.unit.get('clock_calls', []):
+                    q = j + 1
+                    while q < hi and toks[q].kind in ('ws', 'comment'):
+                        q += 1
+                    pk = j - 1
+                    while pk >= lo and toks[pk].kind in ('ws', 'comment'):
+                        pk -= 1
+                    is_def = pk >= lo and toks[pk].kind == 'ident' and toks[pk].text == 'fn'
+                    if q < hi and toks[q].kind == 'punct' and toks[q].text == '(' and not is_def:
+                        c = match_close(toks, q)
+                        inner = [x for x in toks[q + 1:c] if x.kind not in ('ws', 'comment')]
+                        sep = '' if (not inner or inner[-1].text == ',') else ', '
+                        self.log.append({'rule': 'R20', 'fn': self.fnkey, 'line': self.sf.line_of(t.start),
+                                         'what': 'ghost argument Tracked(clk) appended to the call of %s' % t.text})
+                        out(t.text, j)
+                        self._emit_range(j + 1, c, out, rw, pathmap, in_body, overlay_piece)
+                        out('%sTracked(clk))' % sep, c)
+                        j = c + 1
+                        continue
                 # R10: `break VALUE` (always belongs to the innermost enclosing `loop`, which is a value loop)
                 if in_body and t.text == 'break' and 'R10' in rw and self._brk:
                     q = j + 1
@@ -1920,7 +1949,7 @@ def build(unit_dir, repo, canary=False):
                     if got != want:
                         raise Undecided('%s: `%s` occurs %d times in %s, the unit expects %d '
                                         '(the contracts were written for that many)' % (unit['name'], pat, got, fnkey, want))
-            rw = FnRewriter(sf, fn_item, fnkey, fov, dict(unit, _sig=lifted, _wrap=wrap, **{k: it[k] for k in ('rewrites', 'pathmap', 'mut_params') if k in it}), log)
+            rw = FnRewriter(sf, fn_item, fnkey, fov, dict(unit, _sig=lifted, _wrap=wrap, _clock=it.get('clock'), **{k: it[k] for k in ('rewrites', 'pathmap', 'mut_params') if k in it}), log)
             for a in it.get('attrs', []):
                 # attributes for an extracted fn (e.g. #[verifier::exec_allows_no_decreases_clause]); logged
                 pieces.append(Piece(a + '\n', ('gen', 'attr')))
